@@ -12,12 +12,17 @@ abbrev Op := GOp Param GQ
 structure St where
   gates : List (Nat × GateSem) := []
   circs : List (Nat × C) := []
+  builders : List (Nat × Builder GQ) := []
   fresh : Nat := 1000000
 
 def St.gate (s : St) (g : Nat) : Option GateSem := (s.gates.find? (·.1 == g)).map (·.2)
 def St.circ (s : St) (c : Nat) : Option C := (s.circs.find? (·.1 == c)).map (·.2)
 def St.setCirc (s : St) (k : Nat) (c : C) : St :=
   { s with circs := (k, c) :: s.circs.filter (·.1 != k) }
+
+def St.builder (s : St) (b : Nat) : Option (Builder GQ) := (s.builders.find? (·.1 == b)).map (·.2)
+def St.setBuilder (s : St) (k : Nat) (b : Builder GQ) : St :=
+  { s with builders := (k, b) :: s.builders.filter (·.1 != k) }
 
 def conj : GQ → GQ := GQ.conj
 
@@ -84,6 +89,50 @@ def step (s : St) (line : String) : St × String :=
        let op := circuitGate conj c g [] []
        ({ s with gates := (g, ⟨op.numParams, op.radixes, op.unitary, op.grad⟩) :: s.gates }, "ok")
      | _, _ => (s, "bad-op"))
+  | [["gfrozen", g, inner, k, p]] =>
+    (match g.toNat?, inner.toNat?.bind s.gate, k.toNat?, parseParam p with
+     | some g, some sem, some k, some p =>
+       let op : Op := ⟨g, [], [], sem.numParams, sem.radixes, sem.unitary, sem.grad⟩
+       let f := freezeGate op k p g
+       ({ s with gates := (g, ⟨f.numParams, f.radixes, f.unitary, f.grad⟩) :: s.gates }, "ok")
+     | _, _, _, _ => (s, "bad-op"))
+  | [["bnew", b], rad] =>
+    (match b.toNat?, nats rad with
+     | some b, some rad => (s.setBuilder b (Builder.new rad), "ok")
+     | _, _ => (s, "bad-op"))
+  | [["bapply", b, side, g, inv, chk], loc] =>
+    (match b.toNat?, g.toNat?.bind s.gate, nats loc with
+     | some bi, some sem, some loc =>
+       (match s.builder bi with
+        | some b =>
+          let u : UM GQ := ⟨sem.radixes, sem.unitary []⟩
+          let r := if side == "right" then b.applyRight conj u loc (inv == "1") (chk == "1")
+                   else b.applyLeft conj u loc (inv == "1") (chk == "1")
+          (match r with
+           | .ok b' => (s.setBuilder bi b', "ok")
+           | .error e => (s, showErr e))
+        | none => (s, "bad-op"))
+     | _, _, _ => (s, "bad-op"))
+  | [["beval", b, side, g], loc] =>
+    (match b.toNat?.bind s.builder, g.toNat?.bind s.gate, nats loc with
+     | some b, some sem, some loc =>
+       let r := if side == "right" then b.evalApplyRight (sem.unitary []) loc
+                else b.evalApplyLeft (sem.unitary []) loc
+       (match r with
+        | .ok m => (s, "ok " ++ showT m)
+        | .error e => (s, showErr e))
+     | _, _, _ => (s, "bad-op"))
+  | [["bget", b]] =>
+    (match b.toNat?.bind s.builder with
+     | some b => (s, "ok " ++ showT b.getUnitary)
+     | none => (s, "bad-op"))
+  | [["benv", b], loc] =>
+    (match b.toNat?.bind s.builder, nats loc with
+     | some b, some loc =>
+       (match b.calcEnvMatrix loc with
+        | .ok m => (s, "ok " ++ showT m)
+        | .error e => (s, showErr e))
+     | _, _ => (s, "bad-op"))
   | [["circ", c], rad] =>
     (match c.toNat?, nats rad with
      | some c, some rad => (s.setCirc c ⟨rad, 0, []⟩, "ok")
@@ -133,12 +182,18 @@ def step (s : St) (line : String) : St × String :=
         | .ok u => (s, "ok " ++ showT u)
         | .error e => (s, showErr e))
      | _, _ => (s, "bad-op"))
-  | [["state", c], vec, ps] =>
+  | [["state", c], vec, ps, sr] =>
     (match c.toNat?.bind s.circ, parseGQs vec, parseParams ps with
      | some c, some vec, some ps =>
-       (match c.getStatevector conj ⟨[vec.length], vec.toArray⟩ ps with
-        | .ok v => (s, "ok " ++ showT v)
-        | .error e => (s, showErr e))
+       let sr : Option (Option (List Nat)) := match sr with
+         | ["-"] => some none
+         | rs => (nats rs).map some
+       (match sr with
+        | some sr =>
+          (match c.getStatevector conj ⟨[vec.length], vec.toArray⟩ sr ps with
+           | .ok v => (s, "ok " ++ showT v)
+           | .error e => (s, showErr e))
+        | none => (s, "bad-op"))
      | _, _, _ => (s, "bad-op"))
   | [["grad", c], ps] =>
     (match c.toNat?.bind s.circ, parseParams ps with
